@@ -359,6 +359,7 @@ class GeneralMirrors(Contract):
             cl["variants_lists_sorted_top_level"] = And(
                 Implies(lt, _veq(g.get("variants"), sym.concat(uids[0], ",", uids[1]))),
                 Implies(Not(lt), _veq(g.get("variants"), sym.concat(uids[1], ",", uids[0]))))
+        cl["tree_variants_option_sorted_like_general"] = _veq(t.get("variants"), g.get("variants"))
         is_src = eq(f["tree.arch"], "src")
         pk = []
         for cond, i in sel:
